@@ -209,6 +209,24 @@ Definition bad_cases (kinds : list (string * rulek)) (f : case -> bool) (data : 
 
 Definition all3 (c : case) : bool := agree c && holds c && struct_is_text c.
 
+(* the same conjunction with the domain test evaluated once *)
+Definition all3_fast (c : case) : bool :=
+  let x := fst (fst c) in
+  let k := in_rule x in
+  agree c &&
+  (if wf_C11 x then
+     match snd c with
+     | None => false
+     | Some rows => match parse_cmds k rows with None => false | Some cs => cmds_ok x cs end
+     end &&
+     match model_struct k (in_old x) (in_new x),
+           model_rows k (map (print_line k) (in_old x)) (map (print_line k) (in_new x)) with
+     | Some cs, Some rows => list_str_eqb (map (print_cmd k (rk_prefix k) (rk_prefix k)) cs) rows
+     | None, None => true
+     | _, _ => false
+     end
+   else true).
+
 (* (cases failing anything; then, among those only, which predicate failed) *)
 Definition check_data (kinds : list (string * rulek)) (data : string) : list N :=
-  bad_cases kinds all3 data.
+  bad_cases kinds all3_fast data.
